@@ -444,3 +444,60 @@ pub proof fn thm_building(bcr: Map<Carrier, BalanceCarrier>, bcr2: Map<Carrier, 
     thm_building_src(bcr, bcr2, ord, hist, ord2, hist2, ct);
     thm_building_cr(bcr, bcr2, ord, hist, ord2, hist2, ct);
 }
+
+// ------------------------------------------------------------------------------------------------ C04 in explicit form
+pub open spec fn gsel(bcr: Map<Carrier, BalanceCarrier>, f: spec_fn(BalanceCarrier) -> real) -> spec_fn(Carrier) -> real { |c: Carrier| f(bcr[c]) }
+pub open spec fn tot_is_sum(bcr: Map<Carrier, BalanceCarrier>, total: real, f: spec_fn(BalanceCarrier) -> real) -> bool {
+    total == csum(bcr.dom(), gsel(bcr, f), carriers12())
+}
+pub proof fn lemma_field_sum(bcr: Map<Carrier, BalanceCarrier>, ord: Seq<Carrier>, hist: Seq<Balance>, val: spec_fn(Balance) -> real, f: spec_fn(BalanceCarrier) -> real)
+    requires hist.len() == ord.len() + 1, ord.no_duplicates(), forall|c: Carrier| bcr.contains_key(c) <==> ord.contains(c),
+             forall|j: int| 0 <= j < ord.len() ==> val(#[trigger] hist[j + 1]) == val(hist[j]) + f(bcr[ord[j]]),
+             val(hist[0]) == 0real,
+    ensures tot_is_sum(bcr, val(hist.last()), f),
+{
+    let vals = hvals(hist, val);
+    let g = gsel(bcr, f);
+    assert forall|j: int| 0 <= j < ord.len() implies #[trigger] vals[j + 1] == vals[j] + g(ord[j]) by { assert(val(hist[j + 1]) == val(hist[j]) + f(bcr[ord[j]])); }
+    lemma_chain_sum(ord, vals, g, ord.len() as int);
+    assert(ord.take(ord.len() as int) =~= ord);
+    assert(ord.to_set() =~= bcr.dom());
+}
+/// C04: every whole-building total is the sum over the twelve carriers of the per-carrier figure (carriers without a balance count 0)
+pub open spec fn totals_are_sums(bcr: Map<Carrier, BalanceCarrier>, b: Balance) -> bool {
+    &&& tot_is_sum(bcr, rv(b.used.epus), |r: BalanceCarrier| rv(r.used.epus_an))
+    &&& tot_is_sum(bcr, rv(b.used.nepus), |r: BalanceCarrier| rv(r.used.nepus_an))
+    &&& tot_is_sum(bcr, rv(b.used.cgnus), |r: BalanceCarrier| rv(r.used.cgnus_an))
+    &&& tot_is_sum(bcr, rv(b.prod.an), |r: BalanceCarrier| rv(r.prod.an))
+    &&& tot_is_sum(bcr, rv(b.del.an), |r: BalanceCarrier| rv(r.del.an))
+    &&& tot_is_sum(bcr, rv(b.del.onst), |r: BalanceCarrier| rv(r.del.onst_an))
+    &&& tot_is_sum(bcr, rv(b.del.grid), |r: BalanceCarrier| rv(r.del.grid_an))
+    &&& tot_is_sum(bcr, rv(b.exp.an), |r: BalanceCarrier| rv(r.exp.an))
+    &&& tot_is_sum(bcr, rv(b.exp.nepus), |r: BalanceCarrier| rv(r.exp.nepus_an))
+    &&& tot_is_sum(bcr, rv(b.exp.grid), |r: BalanceCarrier| rv(r.exp.grid_an))
+    &&& tot_is_sum(bcr, rv(b.we.a.ren), |r: BalanceCarrier| rv(r.we.a.ren)) && tot_is_sum(bcr, rv(b.we.a.nren), |r: BalanceCarrier| rv(r.we.a.nren)) && tot_is_sum(bcr, rv(b.we.a.co2), |r: BalanceCarrier| rv(r.we.a.co2))
+    &&& tot_is_sum(bcr, rv(b.we.b.ren), |r: BalanceCarrier| rv(r.we.b.ren)) && tot_is_sum(bcr, rv(b.we.b.nren), |r: BalanceCarrier| rv(r.we.b.nren)) && tot_is_sum(bcr, rv(b.we.b.co2), |r: BalanceCarrier| rv(r.we.b.co2))
+}
+pub proof fn thm_c04_totals(bcr: Map<Carrier, BalanceCarrier>, comps: Components, b: Balance)
+    requires ep_totals_ok(bcr, comps, b),
+    ensures totals_are_sums(bcr, b),
+{
+    let (ord, hist) = choose|ord: Seq<Carrier>, hist: Seq<Balance>| #[trigger] bal_chain(bcr, ord, hist) && bal_initial(hist[0], comps) && hist.last() == b;
+    lemma_chain_scalars(bcr, ord, hist);
+    lemma_field_sum(bcr, ord, hist, |x: Balance| rv(x.used.epus), |r: BalanceCarrier| rv(r.used.epus_an));
+    lemma_field_sum(bcr, ord, hist, |x: Balance| rv(x.used.nepus), |r: BalanceCarrier| rv(r.used.nepus_an));
+    lemma_field_sum(bcr, ord, hist, |x: Balance| rv(x.used.cgnus), |r: BalanceCarrier| rv(r.used.cgnus_an));
+    lemma_field_sum(bcr, ord, hist, |x: Balance| rv(x.prod.an), |r: BalanceCarrier| rv(r.prod.an));
+    lemma_field_sum(bcr, ord, hist, |x: Balance| rv(x.del.an), |r: BalanceCarrier| rv(r.del.an));
+    lemma_field_sum(bcr, ord, hist, |x: Balance| rv(x.del.onst), |r: BalanceCarrier| rv(r.del.onst_an));
+    lemma_field_sum(bcr, ord, hist, |x: Balance| rv(x.del.grid), |r: BalanceCarrier| rv(r.del.grid_an));
+    lemma_field_sum(bcr, ord, hist, |x: Balance| rv(x.exp.an), |r: BalanceCarrier| rv(r.exp.an));
+    lemma_field_sum(bcr, ord, hist, |x: Balance| rv(x.exp.nepus), |r: BalanceCarrier| rv(r.exp.nepus_an));
+    lemma_field_sum(bcr, ord, hist, |x: Balance| rv(x.exp.grid), |r: BalanceCarrier| rv(r.exp.grid_an));
+    lemma_field_sum(bcr, ord, hist, |x: Balance| rv(x.we.a.ren), |r: BalanceCarrier| rv(r.we.a.ren));
+    lemma_field_sum(bcr, ord, hist, |x: Balance| rv(x.we.a.nren), |r: BalanceCarrier| rv(r.we.a.nren));
+    lemma_field_sum(bcr, ord, hist, |x: Balance| rv(x.we.a.co2), |r: BalanceCarrier| rv(r.we.a.co2));
+    lemma_field_sum(bcr, ord, hist, |x: Balance| rv(x.we.b.ren), |r: BalanceCarrier| rv(r.we.b.ren));
+    lemma_field_sum(bcr, ord, hist, |x: Balance| rv(x.we.b.nren), |r: BalanceCarrier| rv(r.we.b.nren));
+    lemma_field_sum(bcr, ord, hist, |x: Balance| rv(x.we.b.co2), |r: BalanceCarrier| rv(r.we.b.co2));
+}
